@@ -1,4 +1,5 @@
 import Tw.Proofs.ConnTimed
+import Tw.Proofs.ConnFair
 import Tw.Proofs.ConnTimers6
 import Tw.Proofs.ConnTokens6
 
@@ -143,6 +144,41 @@ example : admissible (World.init (proto6 false)) (busy6 false) = true := by deci
 example : ((run (World.init (proto6 false)) (busy6 false)).map fun w =>
     ((online w.a.conn).isSome && (online w.b.conn).isSome, w.settled)) = some (true, false) := by decide +kernel
 example : (((run (World.init (proto6 false)) (busy6 false)).bind (timedRounds .exact 4)).map World.settled) = some true := by
+  decide +kernel
+
+/-- both connections online in a reachable world: all that the generic argument needs -/
+theorem onlineW6 (tl : Bool) (sched : List (Move (proto6 tl))) (w : World (proto6 tl))
+    (hadm : admissible (World.init (proto6 tl)) sched = true) (hrun : run (World.init (proto6 tl)) sched = some w)
+    {ta tb : Option Nat} {oa ob : Online} (ha : w.a.conn.state = .online ta oa) (hb : w.b.conn.state = .online tb ob) :
+    OnlineW (iface6 tl) ta tb w := by
+  have hw := run_inv (sim6 tl) sched _ w (init_inv (sim6 tl)) hadm hrun
+  have ht := run_loct (loct6 tl) sched _ w (init_loct (loct6 tl)) hrun
+  have hl := run_loc (loc6 tl) sched _ w (init_loc (loc6 tl)) hrun
+  have hg := agree6_run sched _ w (agree6_init tl) hrun
+  have hab : ta = tb := hg.1.agree hg.2 hl.1.1 hl.2.1 ha (by rw [hb]; rfl)
+  have htb : tl = true → tb = none := by
+    intro htl
+    have := hl.2.1 tb (by simp [State.token?, hb])
+    rw [htl] at this
+    cases tb <;> simp at this ⊢
+  refine ⟨hw, ht, ⟨oa, w.a.conn.send, ?_⟩, ⟨ob, w.b.conn.send, ?_⟩, ⟨hab, htb⟩, ⟨hab.symm, by rw [hab]; exact htb⟩⟩
+  · show w.a.conn = ⟨.online ta oa, w.a.conn.send⟩
+    rw [← ha]; rfl
+  · show w.b.conn = ⟨.online tb ob, w.b.conn.send⟩
+    rw [← hb]; rfl
+
+/-- **C02 (c), timed, 0.6, online phase, every datagram of the suffix delivered**: in every world
+reachable by an admissible schedule in which both connections are online, four rounds of the fair
+suffix return and end quiescent -/
+theorem fair_progress6 (tl : Bool) (draws : List Nat) (alt : Alt) (sched : List (Move (proto6 tl)))
+    (w : World (proto6 tl)) (hadm : admissible (World.init (proto6 tl)) sched = true)
+    (hrun : run (World.init (proto6 tl)) sched = some w) {ta tb : Option Nat} {oa ob : Online}
+    (ha : w.a.conn.state = .online ta oa) (hb : w.b.conn.state = .online tb ob) :
+    ∃ s', fairRoundsT draws alt 4 (FairState.start w) = some s' ∧ s'.w.quiescent :=
+  fair_progress (iface6 tl) Conn6.cfg_ok (sim6 tl) (loct6 tl) draws alt (onlineW6 tl sched w hadm hrun ha hb)
+
+example : (((run (World.init (proto6 false)) (busy6 false)).bind fun w =>
+    fairRoundsT (P := proto6 false) [] Alt.exact 4 (FairState.start w)).map fun s => s.w.settled) = some true := by
   decide +kernel
 
 end Tw.NetSim.P6
